@@ -1,13 +1,189 @@
-(* Property C17 — config decoding. Statements only; proofs live in Proofs/ and Gen/. *)
+(* Property C17 — config decoding: unknown keys rejected at every nesting level, defaults kept (incl.
+   discard_overflow), values validated, ${env:}/${property:} placeholders.
+   Statements only; proofs live in Proofs/ConfigDecodeProofs.v and Gen/ConfigSchema_bridge.v.
+   The oracles (environment, property files, library parsers) and the registry are universally quantified;
+   `notok r` = r is not `Ok _` (an error, for every amount of fuel). *)
 From Coq Require Import List NArith ZArith Bool QArith.
 From PV Require Import Model.ConfigDecode Proofs.ConfigDecodeProofs Gen.ConfigSchemaGen Gen.ConfigSchema_bridge.
 Import ListNotations.
 Local Open Scope N_scope.
 
-(* cli.readConfig's pre-pass: a pool without the key gets discard_overflow = true, a pool that writes the key is untouched. *)
-Theorem C17_discard_prepass : forall kvs,
-  (has_key s_discard kvs = false ->
-     exists kvs', prepass_pool (VMap kvs) = VMap kvs' /\ find_exact s_discard kvs' = Some (s_discard, VBool true)) /\
-  (has_key s_discard kvs = true -> prepass_pool (VMap kvs) = VMap kvs).
-Proof. intro kvs. split; [apply prepass_pool_absent|apply prepass_pool_present]. Qed.
-Print Assumptions C17_discard_prepass.
+(* Unknown key. For every registry, schema, written tree v0 and path p: inserting a key k at p yields a tree v
+   that the decoder rejects whenever k is not among the keys accepted at p (p may go through structs, squashed
+   structs, slices, maps, nested plugins, the schedule-list shorthand).  lz = false: no position is decoded lazily
+   (Registry.NewFactory after fix bfeb27f). *)
+Theorem C17_unknown_key :
+  forall env prop orc orcq reg p k y v0 v s cur acc,
+    insert_key p k y v0 = Some v ->
+    classify reg false p s cur v = PStrict acc -> accepted_b k acc = false ->
+    forall F c, notok (decode_and_validate env prop orc orcq reg false F s c v).
+Proof. intros. apply dv_notok. eapply unknown_key_insert; eauto. Qed.
+Print Assumptions C17_unknown_key.
+
+(* The same on the schema regenerated from the source: cli.CliConfig on cli.DefaultConfig() with the registry
+   filled by the CLI's imports, and the laziness the model has now (model_factory_lazy = false).  The side
+   conditions are computed on the generated table: every component config is a struct (every plugin node is a
+   strict node), nothing is outside the model, the shorthand hooks land on what the model assumes, the pool has
+   the documented keys. *)
+Theorem C17_builtin_unknown_key :
+  (forall env prop orc orcq p k y v0 v acc,
+    insert_key p k y v0 = Some v ->
+    classify gen_registry model_factory_lazy p gen_root_schema gen_root_default v = PStrict acc ->
+    accepted_b k acc = false ->
+    forall F c, notok (decode_and_validate env prop orc orcq gen_registry model_factory_lazy F gen_root_schema c v))
+  /\ model_factory_lazy = false
+  /\ (confs_are_structs gen_registry = true /\ is_struct_schema gen_root_schema = true)
+  /\ (forallb (fun e => match e_conf e with Some (cs, _) => supported cs | None => true end) gen_registry = true
+      /\ supported gen_root_schema = true)
+  /\ (composite_ok gen_registry = true /\ file_sink_ok gen_registry = true)
+  /\ entries_nodup gen_registry = true.
+Proof.
+  split; [intros; apply dv_notok; eapply unknown_key_insert; eauto|].
+  split; [reflexivity|].
+  split; [exact gen_confs_are_structs|]. split; [exact gen_all_supported|].
+  split; [exact gen_shorthands_ok|exact gen_registry_nodup].
+Qed.
+Print Assumptions C17_builtin_unknown_key.
+
+(* Defaults kept: decoding never zeroes.  A struct field whose key is not written (or written as null) keeps its
+   current value; an option of a component that is not written keeps the REGISTERED default of that component
+   (and the component's config passed its validate tags). *)
+Theorem C17_defaults_kept :
+  forall env prop orc orcq reg lz,
+  (forall F nl fs cur kvs r,
+     decode env prop orc orcq reg lz (S F) (SStruct nl fs) cur (VMap kvs) = Ok r ->
+     exists rs, r = CStruct rs /\
+       forall i f, nth_error (flat_fields (SStruct nl fs)) i = Some f -> unwritten F (f_key f) kvs ->
+         nth_error rs i = Some (cur_at (struct_cur (SStruct nl fs) cur) i f))
+  /\
+  (forall F iface fk cur kvs r e nl fs d,
+     decode env prop orc orcq reg lz (S F) (SPlugin iface fk) cur (VMap kvs) = Ok r ->
+     plugin_entry reg iface kvs = Some e -> e_conf e = Some (SStruct nl fs, d) -> entry_lazy lz fk e = false ->
+     exists name rs, r = CPlugin name false (CStruct rs) /\
+       validate orc (CStruct rs) (SStruct nl fs) = true /\
+       forall i f, nth_error (flat_fields (SStruct nl fs)) i = Some f ->
+         unwritten F (f_key f) (filter (fun kv => negb (is_type_key kv)) kvs) ->
+         nth_error rs i = Some (cur_at (struct_cur (SStruct nl fs) d) i f)).
+Proof. intros. split; [apply defaults_kept_struct|apply defaults_kept_plugin]. Qed.
+Print Assumptions C17_defaults_kept.
+
+(* discard_overflow: cli.readConfig's pre-pass rewrites every pool of `pools`; a pool without the key gets
+   discard_overflow = true, a pool that writes the key is untouched; the decoder's own default is false (computed on
+   the generated pool schema), so the key is on exactly when absent or written true. *)
+Theorem C17_discard_default :
+  (forall kvs k l, find_exact s_pools kvs = Some (k, VList l) ->
+     exists kvs', cli_prepass (VMap kvs) = VMap kvs' /\ find_exact s_pools kvs' = Some (k, VList (map prepass_pool l)))
+  /\ (forall kvs, has_key s_discard kvs = false ->
+        exists kvs', prepass_pool (VMap kvs) = VMap kvs' /\ find_exact s_discard kvs' = Some (s_discard, VBool true))
+  /\ (forall kvs, has_key s_discard kvs = true -> prepass_pool (VMap kvs) = VMap kvs).
+Proof. split; [exact cli_prepass_pools|split; [exact prepass_pool_absent|exact prepass_pool_present]]. Qed.
+Print Assumptions C17_discard_default.
+
+(* Wrongly typed value / value violating its validate tag, at any depth reached by the decoder. *)
+Theorem C17_type_and_range :
+  forall env prop orc orcq reg lz,
+  (forall p s cur v s' tags d x,
+     reach reg lz p [] s cur v = Some (s', tags, d, x) ->
+     (wrong_type_b s' x = true \/ exists t, x = VStr t /\ wrong_type_str_b s' t = true) ->
+     forall F c, notok (decode env prop orc orcq reg lz F s c v))
+  /\
+  (forall p s cur v iface fk tags d0 kvs e nl fs d i f k' x,
+     reach reg lz p [] s cur v = Some (SPlugin iface fk, tags, d0, VMap kvs) ->
+     plugin_entry reg iface kvs = Some e -> e_conf e = Some (SStruct nl fs, d) -> entry_lazy lz fk e = false ->
+     nth_error (flat_fields (SStruct nl fs)) i = Some f ->
+     find_key (f_key f) (filter (fun kv => negb (is_type_key kv)) kvs) = Some (k', x) ->
+     (forall F' c', decode env prop orc orcq reg lz F' (f_schema f) (cur_at (struct_cur (SStruct nl fs) d) i f) x = Ok c' ->
+                    check_field orc (f_schema f) c' (f_tags f) = false) ->
+     forall F c, notok (decode env prop orc orcq reg lz F s c v))
+  /\
+  (forall F nl fs cur kvs i f k' x,
+     nth_error (flat_fields (SStruct nl fs)) i = Some f ->
+     find_key (f_key f) kvs = Some (k', x) ->
+     (forall c', decode env prop orc orcq reg lz F (f_schema f) (cur_at (struct_cur (SStruct nl fs) cur) i f) x = Ok c' ->
+                 check_field orc (f_schema f) c' (f_tags f) = false) ->
+     notok (decode_and_validate env prop orc orcq reg lz (S F) (SStruct nl fs) cur (VMap kvs))).
+Proof. intros. split; [apply wrong_type_at|split; [apply range_at|apply range_struct]]. Qed.
+Print Assumptions C17_type_and_range.
+
+(* Placeholders ${env:NAME}: in a scalar position of any kind (string, numeric, boolean, duration, size, text) the
+   placeholder is decoded like the literal its text casts to, or like the text itself; an unset variable is an
+   error wherever the decoder reaches it; text without "${" is unchanged. *)
+Theorem C17_placeholders :
+  forall env prop orc orcq reg lz,
+  (forall name t k F c,
+     simple_name name = true -> env name = Some t -> has_dollar_brace t = false ->
+     decode env prop orc orcq reg lz (S F) (SScalar k) c (VStr (ph_env name)) =
+     match cast_text orc orcq (SScalar k) t with
+     | HVal (VStr _) => decode env prop orc orcq reg lz (S F) (SScalar k) c (VStr t)
+     | HVal lit => decode env prop orc orcq reg lz (S F) (SScalar k) c lit
+     | HErr e => Err e
+     end)
+  /\
+  (forall p s cur v s' tags d name,
+     reach reg lz p [] s cur v = Some (s', tags, d, VStr (ph_env name)) ->
+     simple_name name = true -> env name = None ->
+     forall F c, notok (decode env prop orc orcq reg lz F s c v))
+  /\
+  (forall target t, has_dollar_brace t = false -> inject env prop orc orcq target t = HVal (VStr t)).
+Proof. intros. split; [apply placeholder_scalar|split; [apply placeholder_unset_at|apply no_placeholder_unchanged]]. Qed.
+Print Assumptions C17_placeholders.
+
+(* Error propagation, the lemma everything above rests on: a failing sub-problem fails the whole decode. *)
+Theorem C17_error_propagation :
+  forall env prop orc orcq reg lz p tags s cur v s' tags' cur' x,
+    reach reg lz p tags s cur v = Some (s', tags', cur', x) ->
+    (forall F c, notok (decode env prop orc orcq reg lz F s' c x)) ->
+    forall F c, notok (decode env prop orc orcq reg lz F s c v).
+Proof. exact propagate. Qed.
+Print Assumptions C17_error_propagation.
+
+(* ---- non-vacuity on the generated schema: a concrete pool configuration *)
+Definition ex_env (n : str) : option str := if str_eqb n [84] then Some [50] else None.       (* T=2 *)
+Definition ex_prop (_ _ : str) : option str := None.
+Definition ex_orc (k : okind) (s : str) : option Z :=
+  match k with OEndpoint => Some 1%Z | OInt _ => if str_eqb s [50] then Some 2%Z else None | _ => None end.
+Definition ex_orcq (s : str) : option Q := if str_eqb s [50] then Some (2 # 1)%Q else None.
+
+Definition ex_key (s : str) := s.
+Definition ex_plug (name : str) (kvs : list (str * value)) : value := VMap ((s_type, VStr name) :: kvs).
+Definition ex_pool (rps : value) : value :=
+  VMap [ ([97;109;109;111], ex_plug [100;117;109;109;121] []);                                   (* ammo: dummy *)
+         ([114;101;115;117;108;116], ex_plug [100;105;115;99;97;114;100] []);                    (* result: discard *)
+         ([103;117;110], ex_plug [104;116;116;112] [([116;97;114;103;101;116], VStr [104;58;49])]); (* gun: http, target "h:1" *)
+         ([114;112;115], rps);
+         ([115;116;97;114;116;117;112], ex_plug [111;110;99;101] [([116;105;109;101;115], VInt 1)]) ].
+Definition ex_const (extra : list (str * value)) : value :=
+  ex_plug [99;111;110;115;116] (([111;112;115], VInt 1) :: ([100;117;114;97;116;105;111;110], VInt 1000000000) :: extra).
+Definition ex_cfg (rps : value) : value := VMap [(s_pools, VList [ex_pool rps])].
+Definition ex_run (v : value) : res cval :=
+  decode_and_validate ex_env ex_prop ex_orc ex_orcq gen_registry model_factory_lazy (fuel_for v) gen_root_schema gen_root_default v.
+Definition is_ok (r : res cval) : bool := match r with Ok _ => true | _ => false end.
+Definition is_err (r : res cval) : bool := match r with Err _ => true | _ => false end.
+
+(* valid config accepted; {type: const, ops: 1, duration: 1s, from: 1} (DESIGN.md section 6, #23) rejected; ops below
+   min rejected; a string for ops rejected; ops: ${env:T} accepted, ops: ${env:U} (unset) rejected *)
+Example C17_example_pool :
+  is_ok (ex_run (ex_cfg (ex_const []))) = true /\
+  is_err (ex_run (ex_cfg (ex_const [([102;114;111;109], VInt 1)]))) = true /\
+  classify gen_registry false [SKey s_pools; SIdx 0; SKey [114;112;115]] gen_root_schema gen_root_default
+     (ex_cfg (ex_const [([102;114;111;109], VInt 1)]))
+   = PStrict [s_type; [79;112;115]; [68;117;114;97;116;105;111;110]] /\
+  is_err (ex_run (ex_cfg (ex_plug [99;111;110;115;116] [([111;112;115], VInt (-1)); ([100;117;114;97;116;105;111;110], VInt 1000000000)]))) = true /\
+  is_err (ex_run (ex_cfg (ex_plug [99;111;110;115;116] [([111;112;115], VStr [120]); ([100;117;114;97;116;105;111;110], VInt 1000000000)]))) = true /\
+  is_ok (ex_run (ex_cfg (ex_plug [99;111;110;115;116] [([111;112;115], VStr (ph_env [84])); ([100;117;114;97;116;105;111;110], VInt 1000000000)]))) = true /\
+  is_err (ex_run (ex_cfg (ex_plug [99;111;110;115;116] [([111;112;115], VStr (ph_env [85])); ([100;117;114;97;116;105;111;110], VInt 1000000000)]))) = true.
+Proof. vm_compute. repeat split; reflexivity. Qed.
+
+(* the CLI pre-pass end to end on the generated schema: pool 1 without the key -> true, pool 2 writes false -> false *)
+Definition ex_two_pools : value :=
+  VMap [(s_pools, VList [ex_pool (ex_const []);
+                         match ex_pool (ex_const []) with VMap kvs => VMap (kvs ++ [(s_discard, VBool false)]) | x => x end])].
+Definition ex_discards (r : res cval) : list cval :=
+  match r with
+  | Ok (CStruct (CSlice pools :: _)) => map (fun p => match p with CStruct fs => last fs CNil | _ => CNil end) pools
+  | _ => []
+  end.
+Example C17_example_discard :
+  ex_discards (ex_run (cli_prepass ex_two_pools)) = [CBool true; CBool false] /\
+  ex_discards (ex_run ex_two_pools) = [CBool false; CBool false].
+Proof. vm_compute. split; reflexivity. Qed.
